@@ -234,9 +234,15 @@ def cys_case(rng, viol, counts, case=None):
     sg1 = [a for a in r1 if a.aname() == "SG"][0]
     sg2 = [a for a in r2 if a.aname() == "SG"][0]
     d2 = (sg1.x - sg2.x) ** 2 + (sg1.y - sg2.y) ** 2 + (sg1.z - sg2.z) ** 2
-    run = obs.run_single(pdbio.dump(recs), with_atoms=True)
+    opts = []
+    if rng.random() < 0.4:
+        # the bridged / unbridged state must not depend on a titrate-only list naming the residues
+        opts = ["-i", "A:%d,B:%d" % (11, 21)] if rng.random() < 0.7 else ["-i", "A:11"]
+    run = obs.run_single(pdbio.dump(recs), opts, with_atoms=True)
     counts["pipeline_runs"] = 1
-    desc = {"kind": "cys", "sg_sg_A": math.sqrt(d2) / 1000.0, "dir": d, "eps_mA": eps, "exc": run.exc}
+    if opts:
+        counts["cys_cases_with_titrate_only"] = counts.get("cys_cases_with_titrate_only", 0) + 1
+    desc = {"kind": "cys", "opts": opts, "sg_sg_A": math.sqrt(d2) / 1000.0, "dir": d, "eps_mA": eps, "exc": run.exc}
     if run.exc:
         viol.append({"cls": "bonds-exception", "msg": "single() raised %s on a two-CYS input" % run.exc})
         return desc
@@ -249,7 +255,15 @@ def cys_case(rng, viol, counts, case=None):
     summ = {s["label"]: s for s in obs.parse_summary(obs.parse_pka_text(run.text)["summary"])}
     if len(cys) != 2:
         viol.append({"cls": "cys-group-missing", "msg": "%d CYS groups for two CYS residues" % len(cys)})
+    listed = {"A": True, "B": True}
+    if opts:
+        listed = {"A": True, "B": "B:" in opts[1]}
     for g in cys:
+        if not listed[g["aid"][1]]:
+            # an unlisted CYS is not titrated and not reported under --titrate_only (C14's subject)
+            if g["bridge"] != expect_bridge:
+                viol.append({"cls": "bridged-cys-state", "msg": "unlisted %s: bridge flag %s, S-S %.4f A" % (g["label"], g["bridge"], math.sqrt(d2) / 1000.0)})
+            continue
         ok = (g["bridge"] == expect_bridge and g["titratable"] == (not expect_bridge)
               and (abs(g["pka"] - 99.99) < 1e-9) == expect_bridge)
         s = summ.get(g["label"])
